@@ -64,6 +64,27 @@ let enc_laws sch m v =
       (match v with VMsg (s, u) -> e1 = emit sch true m (VMsg (s, [])) @ u | _ -> true)
   end
 
+(* Messages of a type protobuf-go itself decodes (m_impl = ProtobufGo: well-known types): its table decoder stores
+   nil for an empty singular implicit-presence bytes payload where the generated code stores an empty slice; nil vs
+   empty inside such a message is protobuf-go's representation, not this repository's, so both sides render it nil
+   (the runner does the same in fromGo). *)
+let rec foreign_norm sch (m : nat) (v : val0) : val0 =
+  match v, get_msg sch m with
+  | VMsg (slots, unk), Some md ->
+    let rec go fs ss = match fs, ss with
+      | f :: fs', s :: ss' ->
+        let s' = match f.f_ty, f.f_shape, s with
+          | TScalar KBytes, Singular, VBytes [] when md.m_impl = ProtobufGo -> VNil
+          | TMsg c, Singular, _ -> foreign_norm sch c s
+          | TMsg c, Member _, VSome p -> VSome (foreign_norm sch c p)
+          | TMsg c, Rep _, VList l -> VList (List.map (foreign_norm sch c) l)
+          | TMsg c, MapOf _, VMap kvs -> VMap (List.map (fun (k, x) -> (k, foreign_norm sch c x)) kvs)
+          | _ -> s in
+        s' :: go fs' ss'
+      | _, ss -> ss in
+    VMsg (go md.m_fields slots, unk)
+  | _ -> v
+
 let codec_eval (fn : string) (args : string list) : string =
   match fn, args with
   | "ENC", [ sid; mid; v ] ->
@@ -84,7 +105,7 @@ let codec_eval (fn : string) (args : string list) : string =
       law "C14.discard_strip" (pulsar_unmarshal sch true m VNil bs = out_map strip_unknown (pulsar_unmarshal sch false m VNil bs));
     (match res with Ok r when init = VNil || wt_msg sch m init -> law "C06.accepted_wt" (wt_msg sch m r) | _ -> ());
     (match res with
-     | Ok v -> "ok " ^ Sexp.string_of_val v
+     | Ok v -> "ok " ^ Sexp.string_of_val (foreign_norm sch m v)
      | Err -> "err" | Panic -> "panic" | OutOfFuel -> "outoffuel")
   | "DECL", [ sid; mid; flags; limit; b ] ->
     (* decoding under an explicit RecursionLimit: the depth budget the top-level call starts with *)
@@ -92,7 +113,7 @@ let codec_eval (fn : string) (args : string list) : string =
     let discard = String.contains flags 'd' in
     let bs = bytes_of_hex b in
     (match unmarshal_at sch discard (nat_of_int (List.length bs + 1)) (z_of_hex (Printf.sprintf "%x" (int_of_string limit))) m VNil bs with
-     | Ok v -> "ok " ^ Sexp.string_of_val v
+     | Ok v -> "ok " ^ Sexp.string_of_val (foreign_norm sch m v)
      | Err -> "err" | Panic -> "panic" | OutOfFuel -> "outoffuel")
   | _ -> raise Not_found
 
